@@ -416,7 +416,48 @@ func (c *core) checkFastForward(block *hg.Block, frame *hg.Frame) error {
 		return fmt.Errorf("Invalid Frame Hash")
 	}
 
+	// The signatures were counted against the validator-set shipped in the
+	// response itself. Require that at least one valid signature comes from a
+	// validator this node already has a reason to trust (its peers, the genesis
+	// peers, or any validator-set it derived); otherwise anybody could make us
+	// adopt a self-made validator-set signed by itself.
+	trusted := false
+	for _, s := range block.GetSignatures() {
+		validatorHex := s.ValidatorHex()
+		if _, ok := peerSet.ByPubKey[validatorHex]; !ok {
+			continue
+		}
+		if !c.knownValidator(validatorHex) {
+			continue
+		}
+		if ok, _ := block.Verify(s); ok {
+			trusted = true
+			break
+		}
+	}
+	if !trusted {
+		return fmt.Errorf("Block is not signed by any known validator")
+	}
+
 	return nil
+}
+
+// knownValidator indicates whether a public key belongs to a validator that
+// this node knows from its configuration or from the validator-sets it derived.
+func (c *core) knownValidator(pubKeyHex string) bool {
+	if _, ok := c.peers.ByPubKey[pubKeyHex]; ok {
+		return true
+	}
+	if _, ok := c.genesisPeers.ByPubKey[pubKeyHex]; ok {
+		return true
+	}
+	if _, ok := c.validators.ByPubKey[pubKeyHex]; ok {
+		return true
+	}
+	if _, ok := c.hg.Store.RepertoireByPubKey()[pubKeyHex]; ok {
+		return true
+	}
+	return false
 }
 
 // getAnchorBlockWithFrame returns GetAnchorBlockWithFrame from the hashgraph
